@@ -380,7 +380,10 @@ func (ex *Exec) builtin(s *State, fr *Frame, c *ssa.Call, name string, args []Va
 			ex.unsupported("unsafe.Slice on %s", describe(args[0]))
 		}
 		ex.check(s, "safety", ex.obName(fr, "unsafe.Slice", c), ICmp("<=", IntC(0), n), c.Pos(), "unsafe.Slice: length non-negative")
-		if ex.opts["extent"] == "on" {
+		if ex.opts["extent"] == "on" && p.Ext.S != "" {
+			// pointer into a fixed array field: the slice must end inside that array
+			ex.emit(s, "extent", fmt.Sprintf("extent/%s/unsafe.Slice@%s", normName(fr.fn.RelString(ex.prog.SSA.Pkg)), ex.prog.SrcAnchor(c.Pos())), ICmp("<=", n, p.Ext), c.Pos(), "unsafe.Slice stays inside the array its base pointer points into")
+		} else if ex.opts["extent"] == "on" {
 			bl := s.H(ex, "blen", ArrSort(SRef, SInt))
 			ex.emit(s, "extent", fmt.Sprintf("extent/%s/unsafe.Slice@%s", normName(fr.fn.RelString(ex.prog.SSA.Pkg)), ex.prog.SrcAnchor(c.Pos())), Or(Eq(n, IntC(0)), ICmp("<=", IAdd(p.Idx, n), Select(bl, p.Obj))), c.Pos(), "unsafe.Slice stays inside the allocation of its base pointer")
 		}
@@ -544,7 +547,8 @@ func auxValid(st *Symtab, o *Obligation, timeout time.Duration) bool {
 	if v, ok := auxCache[key]; ok {
 		return v
 	}
-	res, _, _ := runSolver(context.Background(), "z3-new", q, timeout, false)
+	// bounded by z3's deterministic resource counter (about 1-3 s of work), wall clock only as a backstop
+	res, _, _ := runSolverR(context.Background(), "z3-new", q, 30*timeout, false, 2000000)
 	auxCache[key] = res == "unsat"
 	return res == "unsat"
 }
